@@ -130,6 +130,31 @@ def cases_plain(tier, seed):
                 ops += deliver(True, raw + R.rbytes(rnd, k), "ext:%d" % k)
                 ops += deliver(True, raw + [0] * k, "ext0:%d" % k)
             cs.append(Case("trunc-%d-%s" % (mem, name), ops, ("truncate-extend", name)))
+    # damage on the wire (behind the SLIP encoder / inside the length prefix) and sources that run dry or fail in the
+    # middle of a frame: the framing layer itself reports the failure.  The service loop reuses one RPMaybeFrame: a
+    # request was served just before, and nothing of it may be served again.
+    for mem in (16, 8):
+        for ep in ("serial", "tcp"):
+            serial = ep == "serial"
+            fs = corpus(rnd, serial, mem)
+            good = [raw for (name, raw) in fs if name.startswith("wreq")][0]
+            ops = [R.cfg(mem, ep, 256), "rp.backend 0 0 1"]
+            for idx, (name, raw) in enumerate(fs):
+                w = R.wire(serial, raw)
+                bits = list(range(len(w) * 8))
+                if quick:
+                    bits = rnd.sample(bits, min(len(bits), 60))
+                for b in bits:
+                    dw = list(w)
+                    dw[b // 8] ^= 1 << (b % 8)
+                    ops += deliver(serial, good)
+                    ops += [R.src_op(dw)] + rpf() + rpf()     # whatever is left over is taken (or refused) as well
+                for k in ([0, 1, len(w) // 2, len(w) - 1] if quick else range(len(w))):
+                    for ev in ("!eio", "!eagain", None):
+                        ops += deliver(serial, good)
+                        ops += ["rp.src " + (R.hexs(w[:k]) + " " if k else "") + (ev or "")] + rpf()
+                        ops += [R.src_op(w[k:])] + rpf() + rpf()
+            cs.append(Case("wire-%d-%s" % (mem, ep), ops, ("wire-damage", ep)))
     # all option-bit combinations, both transports, good and bad checksums
     for mem in (8, 16):
         unit = mem // 8
